@@ -3,6 +3,7 @@ package main
 import (
 	"encoding/json"
 	"fmt"
+	"os"
 	"strings"
 	"testing/synctest"
 
@@ -28,7 +29,7 @@ var c07ConcScenarios = []c07ConcScenario{
 	{"delete-vs-revalidation", []string{"foundlive:A.1.a"}, [][]string{{"del:A"}}, 1},
 	{"delete-vs-revalidation-two-entries", []string{"foundlive:A.1.a", "foundlive:B.1.a"}, [][]string{{"del:A"}}, 1},
 	{"update-vs-delete-vs-feedback", []string{"foundlive:A.1.a", "foundlive:F0", "foundlive:F1", "foundlive:F2"}, [][]string{{"del:A"}, {"found:A.2.b"}, {"track:A:fail"}}, 0},
-	{"two-deletes-and-an-add", []string{"foundlive:A.1.a", "found:B.1.a"}, [][]string{{"del:A"}, {"del:A"}, {"inbound:A.2.b"}}, 1},
+	{"two-deletes-and-an-add", []string{"foundlive:A.1.a", "found:B.1.a"}, [][]string{{"del:A"}, {"del:A"}, {"inbound:A.2.b"}}, 0},
 	{"adds-racing-for-the-ip-limit", []string{"foundlive:A.1.a"}, [][]string{{"found:B.1.a"}, {"found:X.1.b"}, {"inbound:A.2.b"}}, 0},
 }
 
@@ -50,6 +51,12 @@ func c07ConcRun(r *mc.Report, sc *c07ConcScenario, c *mc.Ctx) (outcome string) {
 		s := newSched()
 		s.BgLast = false
 		s.TickBudget, s.TickStep = sc.Ticks, 3*tabPingInterval
+		// the clock advances only while the loop is idle in its select (a timer and a sender
+		// ready together would again be a random select)
+		s.TickCond = func() bool {
+			lp := s.threadNamed("loop")
+			return !s.othersInFlight(nil) && (lp == nil || !lp.parked)
+		}
 		defer s.stop()
 		t.pingAuto = true
 		t.intnGate = func(site string) { s.Gate("draw:" + site) }
@@ -74,7 +81,13 @@ func c07ConcRun(r *mc.Report, sc *c07ConcScenario, c *mc.Ctx) (outcome string) {
 		for ti, evs := range sc.Threads {
 			ti, evs := ti, evs
 			s.spawn(fmt.Sprintf("T%d", ti+1), func() {
+				self := s.current()
 				for _, ev := range evs {
+					// A call is issued only while no other API goroutine is blocked handing an
+					// operation to the loop: with two senders ready the loop's select picks at
+					// random, which the explorer could not replay. Every order of the calls is
+					// still explored as a scheduling choice.
+					s.GateIf("call:"+ev, func() bool { return !s.othersInFlight(self) })
 					t.applyNoWait(ev)
 				}
 				done[ti] = true
@@ -132,12 +145,15 @@ func runC07Conc(r *mc.Report, e *Env, task int) {
 			bound = 3
 		}
 		outcomes := map[string]int{}
-		d := &mc.DFS{Bound: bound, Deadline: e.Deadline}
+		d := &mc.DFS{Bound: bound, Deadline: e.Deadline, Retries: 8}
 		var out string
 		d.Body = func(c *mc.Ctx) { out = c07ConcRun(r, sc, c) }
 		d.After = func(c *mc.Ctx) {
 			if c.Diverged != "" {
 				r.Count("schedule_replays_diverged", 1)
+				if os.Getenv("VERIF_DEBUG") != "" {
+					fmt.Fprintln(os.Stderr, "DIVERGED", sc.Name, c.Diverged, c.Labels())
+				}
 				return
 			}
 			r.Exec("conc|" + sc.Name + "|" + out)
@@ -149,6 +165,10 @@ func runC07Conc(r *mc.Report, e *Env, task int) {
 		}
 		r.Count("schedules_"+sc.Name, d.Executions)
 		r.Count("schedules", d.Executions)
+		r.Count("schedule_replays_retried", d.Retried)
+		if d.Diverged > 0 {
+			r.NotExhaustive("some schedule prefixes could not be replayed (a liveness response and an API call were ready at the loop's select together: Go picks at random)")
+		}
 		r.Max("max_schedule_points", int64(d.MaxPoints))
 		r.Set("preemption_bound", bound)
 		r.Sample(map[string]any{"scenario": sc.Name, "setup": sc.Setup, "threads": sc.Threads, "clock_advances": sc.Ticks, "distinct_outcomes": len(outcomes)})
